@@ -8,7 +8,7 @@
    < 256) is what "a byte string" means in the model.
    That the accessors of a decoded filter do not panic and return the unique split is C17 (filter_ok
    is exactly the premise of C17_accessors_split through C17_reparse). *)
-From MQ Require Import Proofs.Tactics Model.Valid Model.Stream Proofs.TopicFilterEq Proofs.DecInv Proofs.Totality.
+From MQ Require Import Proofs.Tactics Model.Valid Model.Stream Proofs.TopicFilterEq Proofs.DecInv Proofs.Totality Proofs.DecAccessors.
 Open Scope N_scope.
 
 Theorem C12_v3_async : forall prof t d p d', bytes_okb d = true -> V3.decode_async prof t d = ROk p d' -> I3.types_inv p = true.
@@ -57,6 +57,28 @@ Print Assumptions C12_v5_poll_empty.
 Theorem C12_strings_validated : forall t d s r, read_string t d = ROk s r -> utf8_valid s = true.
 Proof. exact read_string_valid. Qed.
 Print Assumptions C12_strings_validated.
+
+(* every topic filter inside a decoded packet has working shared-subscription accessors: no slicing panic, and
+   they return the unique '$share/' + name + '/' + filter split of the text (acc_ok, Proofs/DecAccessors.v) *)
+Theorem C12_v3_decoded_filters_accessors : forall prof t d p d', bytes_okb d = true ->
+  V3.decode_async prof t d = ROk p d' -> Forall (fun f => acc_ok f) (filters3 p).
+Proof. exact DecAccessors.C12_v3_decoded_filters_accessors. Qed.
+Print Assumptions C12_v3_decoded_filters_accessors.
+Theorem C12_v3_poll_decoded_filters_accessors : forall prof h t d p d', bytes_okb d = true ->
+  V3.block_decode prof h t d = ROk p d' -> Forall (fun f => acc_ok f) (filters3 p).
+Proof. exact DecAccessors.C12_v3_block_decoded_filters_accessors. Qed.
+Print Assumptions C12_v3_poll_decoded_filters_accessors.
+
+(* every topic filter inside a decoded packet has working shared-subscription accessors: no slicing panic, and
+   they return the unique '$share/' + name + '/' + filter split of the text (acc_ok, Proofs/DecAccessors.v) *)
+Theorem C12_v5_decoded_filters_accessors : forall prof t d p d', bytes_okb d = true ->
+  V5.decode_async prof t d = ROk p d' -> Forall (fun f => acc_ok f) (filters5 p).
+Proof. exact DecAccessors.C12_v5_decoded_filters_accessors. Qed.
+Print Assumptions C12_v5_decoded_filters_accessors.
+Theorem C12_v5_poll_decoded_filters_accessors : forall prof h t d p d', bytes_okb d = true ->
+  V5.block_decode prof h t d = ROk p d' -> Forall (fun f => acc_ok f) (filters5 p).
+Proof. exact DecAccessors.C12_v5_block_decoded_filters_accessors. Qed.
+Print Assumptions C12_v5_poll_decoded_filters_accessors.
 
 Example ex_C12 :
   exists p r, V5.decode_async Debug TEof
